@@ -86,6 +86,10 @@ var c01KVValues = []string{
 	"route del api /none",
 	"route add web /web http://9.9.9.7:97/ tags \"manual\"",
 	"",
+	// operator weights for service routes: while the service has a healthy instance they apply to it, and when its
+	// last instance has gone they have nothing to apply to (see c01Applicable)
+	"route weight web /web weight 0.3",
+	"route weight api api.example.com/ weight 0.5",
 }
 
 func c01GenInstance(g *simcore.Tape, nodes []simconsul.Node, tagged bool) *simconsul.Instance {
@@ -705,7 +709,8 @@ func c01Want(e *h1Env, sc *c01Scenario) (table []string, cmds []string, man []st
 			man = append(man, strings.TrimSpace(e.Value))
 		}
 	}
-	text := c01Render(cmds, view, cats, sc) + "\n" + strings.Join(man, "\n\n")
+	svcText := c01Render(cmds, view, cats, sc)
+	text := svcText + "\n" + c01Applicable(svcText, strings.Join(man, "\n\n"))
 	wantTable, err := route.NewTable(bytes.NewBufferString(text))
 	if err != nil {
 		e.r.Trouble("model text does not parse: %v\n%s", err, text)
@@ -785,6 +790,45 @@ func c01Prompt(e *h1Env, sc *c01Scenario, when string) {
 		e.r.Fail("convergence", "table-stale-although-final-view-served", "%s: the pipeline is idle and both watchers were served the registry as it stands (health reply #%d, kv reply #%d), yet the active table is not the table of the registry:\n got: %s\nwant: %s",
 			when, rounds[len(rounds)-1].health.Seq, lastKV.Seq, strings.Join(got, " | "), strings.Join(want, " | "))
 	}
+}
+
+// c01Applicable is the reference reading of "the operator's route commands applied on top of the service routes" for a
+// weight command: it applies to the routes of its service on its prefix that exist at that point of the text; when
+// there is none (the last healthy instance of the service has gone) it has nothing to apply to and the other commands
+// still hold. It returns the manual text without the weight commands that have nothing to apply to.
+func c01Applicable(svcText, manual string) string {
+	have := map[string]bool{} // "svc src" of the routes defined so far
+	note := func(line string) {
+		f := strings.Fields(line)
+		if len(f) < 3 || f[0] != "route" {
+			return
+		}
+		switch {
+		case f[1] == "add" && len(f) >= 5:
+			have[f[2]+" "+strings.ToLower(f[3])] = true
+		case f[1] == "del" && len(f) == 3:
+			for k := range have {
+				if strings.HasPrefix(k, f[2]+" ") {
+					delete(have, k)
+				}
+			}
+		case f[1] == "del" && len(f) >= 4:
+			delete(have, f[2]+" "+strings.ToLower(f[3]))
+		}
+	}
+	for _, l := range strings.Split(svcText, "\n") {
+		note(l)
+	}
+	var out []string
+	for _, l := range strings.Split(manual, "\n") {
+		f := strings.Fields(l)
+		if len(f) >= 4 && f[0] == "route" && f[1] == "weight" && !have[f[2]+" "+strings.ToLower(f[3])] {
+			continue
+		}
+		note(l)
+		out = append(out, l)
+	}
+	return strings.Join(out, "\n")
 }
 
 // c01Render turns the model's eligible instances into route command text (the model's own rendering).
